@@ -2,16 +2,37 @@ from propdefs.common import *
 
 PROP = {
     "bin": "c02",
-    "coq_targets": ["theories/Isa/C02Check"],
+    "coq_targets": ["theories/Isa/C02Check", "theories/Isa/MipsProofs", "theories/Isa/MipsRefuted"],
     "n": {"quick": 2400, "thorough": 60000},
-    "theorems": [],
-    "rule": "case i = form (i mod #forms) x variant (i div #forms): variant picks endianness, register pattern (distinct, $zero in each field, "
-            "rd=rs, rd=rt, rs=rt, all equal, $ra, field sweeps), immediate {0,1,0xffff,0x7fff,0x8000,0xfffc,random}, for branches a delay-slot class; "
-            "each case carries 12 sampled states (overflow / sign boundaries, shift amounts >= 32, unaligned and page-crossing addresses). "
+    "theorems": ["mips_plain_forms_correct", "mips_single_block_correct", "mips_control_correct", "mips_branch_block_correct",
+                 "mips_fields_okb_ok", "mips_branch_okb_ok",
+                 "mips_jr_target_read_after_slot_refuted", "mips_unaligned_lw_refuted", "mips_div_by_zero_refuted"],
+    "tie_name": "mirror_block (decoded words) = IL dumped by translator::mips::{Mips,Mipsel}::translate_block",
+    "rule": "case i: i mod 4 = 3 is a PowerPC case, the others MIPS. MIPS case = form (k mod #forms) x variant (k div #forms): the variant picks "
+            "endianness, lift address {0x401000, 0x90002000}, register pattern (distinct, $zero in each field, rd=rs, rd=rt, rs=rt, all equal, $ra, "
+            "field sweeps 0..31), immediate {0,1,0xffff,0x7fff,0x8000,0xfffc,random}, and for branches one of 11 delay-slot classes (nop, writes the "
+            "branch's source, reads $ra, writes $ra, lw, sw $ra, mult, trapping add, lwl, ...); 12 sampled states per case (overflow / sign boundaries, "
+            "shift amounts >= 32, all four byte offsets and page-end / wrap addresses for lwl lwr swl swr). PPC likewise over 30 forms, 10 states. "
             "non-trivial = accepted by the lifter; distinct by (form, words, endianness, address)",
-    "trusted_base": [KERNEL, HARNESS_TB, "Isa/Mips.v (transcription of the MIPS32 manual)", "Exec/Sem.v (reference IL semantics, tied to executor::Driver by C07)", "capstone (decoder)"],
-    "assumptions": [],
-    "partial": [],
-    "level_text": "in progress",
-    "level_note": "",
+    "trusted_base": [KERNEL, HARNESS_TB, "Isa/Mips.v, Isa/Ppc.v (hand transcriptions of the MIPS32 / PowerPC Book I manuals: the oracle)",
+                     "Exec/Sem.v + Isa/ILRun.v (reference IL semantics; tied to executor::Driver by C07)",
+                     "capstone's decoder (its alias selection is modelled in the mirror and tied syntactically)"],
+    "assumptions": ["lift address a with 0 <= a and a + 8 < 2^32; branch targets inside [0, 2^32)",
+                    "sc on the LLbit = 1 path", "PPC: Rc = 0 and OE = 0 encodings; every crN-so equals XER[SO] in sampled states (the IL has no XER[SO])"],
+    "partial": [
+        "MIPS theorem + syntactic tie [U]: add addu sub subu and or xor nor slt sltu movn movz mul sll srl sra sllv srlv srav addi addiu slti sltiu andi ori xori "
+        "lui mfhi mflo mthi mtlo teq break syscall sync pref (aliases move negu nop); j jal jr jalr beq bne blez bgtz bltz bgez bltzal bgezal x every such slot form",
+        "MIPS spec + mirror (syntactic tie) + sampled comparison, no theorem [D]: mult multu madd maddu msub msubu div divu clz clo lb lbu lh lhu lw ll lwl lwr sb sh sw sc swl swr",
+        "MIPS sampled only: rdhwr (UNPREDICTABLE in the spec: nothing compared)",
+        "jr/jalr theorem assumes the slot leaves the target register unchanged (complement = known finding kf:mips-jr-jalr-target-read-after-slot)",
+        "PowerPC: spec + sampled comparison only [D]; no mirror, no theorem",
+        "accepted encodings with non-canonical reserved fields are listed (extra.mips_sweep_accepted) but not judged",
+        "staged sensitivity experiments not run (see notes/C02.md)",
+    ],
+    "level_text": "MIPS: unbounded Coq theorems (all register/immediate fields, all states, all embeddings) that a Gallina mirror of the semantics builders and of the "
+                  "delay-slot sequencing produces IL whose reference-semantics run equals a manual-derived ISA specification, for 39 non-control forms and all 12 branch/jump "
+                  "forms with every such delay-slot form; on every run the mirror is compared syntactically with the IL the real lifter emits for each enumerated encoding, "
+                  "and the emitted IL is executed in the kernel against the specification on sampled states. The remaining 24 accepted MIPS forms and all PowerPC forms: "
+                  "sampled in-kernel comparison only.",
+    "level_note": "Trusted: Coq kernel + vm_compute; the two ISA specifications; Exec/Sem.v; capstone; the harness printer. Not proved: multiply/divide/HI-LO, clz/clo, loads/stores, PowerPC.",
 }
